@@ -16,6 +16,12 @@ from ..harness import Harness
 from ..engine import Query
 from ..lib.descriptors import make_collection
 
+# FINDINGS (genuine defects found by this check on the original tree, fixed in /repo)
+#   c64b9f1 "fix: SuperSpeedSetupDecoder only accepts a single eight-byte setup packet"
+#       a setup-flagged packet of 4..7 bytes left the decoder in PARSE_SECOND: two 4-byte packets were reported as one
+#       request, and the next correct setup packet was missed.
+#       Caught by: bmc_setup_decoder assert:report_spurious and assert:report_missing.
+
 PROP = "C48"
 ENCODED = [
     "luna/gateware/usb/usb3/application/request.py: SuperSpeedSetupDecoder (FSM WAIT_FOR_FIRST/PARSE_SECOND/"
